@@ -14,6 +14,7 @@ namespace Sif
 /-! ## errors (classes compared by the correspondence are the exported ones) -/
 inductive Err
   | noObjects | objectNotFound | multipleObjectsFound | invalidObjectID | invalidGroupID
+  | caller            -- the error a caller's own selector function answers with
   | insufficientCapacity | primaryPartition | objectIDOverflow | alignmentOverflow
   | nameTooLarge | extraTooLarge | marshal | reader
   | notPartition | notSystem | unexpectedDataType
@@ -74,6 +75,9 @@ def Img.isDeterministic (s : Img) : Bool :=
   s.h.id == nilUUID && s.h.ctime == zeroTime && s.h.mtime == zeroTime
 
 /-! ## selectors (select.go) -/
+/-- what a descriptor says about its object, apart from where the object lies in the file -/
+def erase (d : RawDesc) : RawDesc := { d with off := 0, sizePad := 0 }
+
 inductive Sel
   | dataType (dt : Int)
   | id (id : Nat)
@@ -83,7 +87,23 @@ inductive Sel
   | linkedGroupID (g : Nat)
   | partType (pt : Int)
   | ociDigest (text : Bytes)       -- `digest.String()`
-  deriving Repr, DecidableEq, Inhabited
+  /-- a caller's own `DescriptorSelectorFunc`: any function of the descriptor's attributes, which
+      may also answer with an error of its own (modelled: predicates that do not look at the
+      object's file offset) -/
+  | pred (f : RawDesc → Except Err Bool)
+  deriving Inhabited
+
+instance : Repr Sel where
+  reprPrec s _ := match s with
+    | .dataType dt => "Sel.dataType " ++ repr dt
+    | .id i => "Sel.id " ++ repr i
+    | .noGroup => "Sel.noGroup"
+    | .groupID g => "Sel.groupID " ++ repr g
+    | .linkedID i => "Sel.linkedID " ++ repr i
+    | .linkedGroupID g => "Sel.linkedGroupID " ++ repr g
+    | .partType pt => "Sel.partType " ++ repr pt
+    | .ociDigest t => "Sel.ociDigest " ++ repr t
+    | .pred _ => "Sel.pred _"
 
 def isOCIType (dt : Int) : Bool := dt == dtOCIRootIndex || dt == dtOCIBlob
 
@@ -107,6 +127,7 @@ def Sel.eval (parseHash : Bytes → Option Bytes) (s : Sel) (d : RawDesc) : Exce
   | .ociDigest t => .ok (match ociText parseHash d with
                          | some t' => t' == t
                          | none => false)
+  | .pred f => f (erase d)
 
 /-- `multiSelectorFunc`: left to right, stops at the first `false` or error -/
 def multiSel (parseHash : Bytes → Option Bytes) : List Sel → RawDesc → Except Err Bool
